@@ -49,6 +49,8 @@
 #define F_BYVAL 4
 #define F_DECOY 8
 #define F_CTLCLI 16
+#define F_BLKWAKE 128	/* with blocking + control interface: control clients come and go while the server sits in a
+			   blocking xcm_accept(); the connection arrives afterwards, from a forked helper process */
 #define F_CTLCLI2 64	/* with F_CTLCLI: a second control client on the same socket (both attached when it is closed) */
 #define F_NOTRAFFIC 32
 
@@ -643,6 +645,8 @@ static int transfer(int hfrom, int hto, int tag)
 
 /* ---- harness-side control client ------------------------------------------------------ */
 static int ctl_cli = -1, ctl_cli2 = -1;
+static pid_t blk_helper;
+static int blk_pipe[2] = { -1, -1 };
 
 static int ctl_attach(const char *skip_names)
 {
@@ -697,6 +701,16 @@ static void final_checks(const char *ev_name)
 {
     char det[600], fdet[300], hdet[400], ndet[300];
     drain();
+    if (blk_helper > 0) {
+	for (int i = 0; i < 2; i++)
+	    if (blk_pipe[i] >= 0) {
+		close(blk_pipe[i]);
+		ls_note("close", blk_pipe[i], 0, 0, 0);
+		blk_pipe[i] = -1;
+	    }
+	waitpid(blk_helper, NULL, 0);
+	blk_helper = 0;
+    }
     if (ctl_cli >= 0) {
 	close(ctl_cli);
 	ctl_cli = -1;
@@ -911,6 +925,48 @@ static void scen_pair(const struct cfg *c)
 	char known[2000];
 	known[0] = ' ';
 	count_dir(ctl_dir, known + 1, sizeof(known) - 1);
+	if (i == 0 && S != NULL && blocking && (c->flags & F_BLKWAKE) && (c->flags & F_CTL)) {
+	    /* the accept call is woken several times with nothing to accept (a control session opens / closes), restarts,
+	       and finally returns the helper's connection; every candidate socket of a restart must be released whole */
+	    int hp[2];
+	    if (pipe(hp) == 0) {
+		ls_note("hopen", hp[0], 0, 0, 0);
+		ls_note("hopen", hp[1], 0, 0, 0);
+		pid_t helper = fork();
+		if (helper == 0) {
+		    close(hp[1]);
+		    char names[2000], *save = NULL;
+		    usleep(30000);
+		    count_dir(ctl_dir, names, sizeof(names));
+		    for (int r = 0; r < 3; r++)
+			for (char *nm = strtok_r(r == 0 ? names : NULL, " ", &save); nm; nm = NULL) {
+			    char path[600];
+			    snprintf(path, sizeof(path), "%s/%s", ctl_dir, nm);
+			    for (int q = 0; q < 3; q++) {
+				int fd = ctl_connect_path(path);
+				usleep(15000);
+				if (fd >= 0)
+				    close(fd);
+				usleep(15000);
+			    }
+			}
+		    struct xcm_socket *hc_s = xcm_connect(caddr, 0);
+		    char b;
+		    (void)!read(hp[0], &b, 1);	/* until the owner has closed everything */
+		    if (hc_s)
+			xcm_close(hc_s);
+		    _exit(0);
+		}
+		struct xcm_socket *A = api_accept(ha, 1);
+		(void)A;
+		if (helper > 0) {
+		    blk_helper = helper;
+		    blk_pipe[0] = hp[0];
+		    blk_pipe[1] = hp[1];
+		}
+	    }
+	    continue;
+	}
 	struct xcm_socket *C = api_connect(c, hc, ctp, caddr);
 	if (i == 0 && C != NULL && (c->flags & F_CTLCLI) && (c->flags & F_CTL)) {
 	    char path[400];
